@@ -34,6 +34,8 @@ def run(ctx):
                         "range decade times the extrapolation factor", "float behaviour is reached only through embedded lattice instances and samples"]
     ctx.model("LinScale", "NegLinScale_sharedlists.cfg", workers=2, expect_violation="EndpointsMap",
               label="negative self-test: copy() sharing the lists breaks EndpointsMap after Copy;Nice")
+    ctx.model("LinScale", "NegLinScale_sameobject.cfg", workers=2, expect_violation="EndpointsMap",
+              label="negative self-test: a range() that returns early when it is handed the list object it already holds leaves the map stale after the caller edited that list")
     ctx.model("LinScale", "NegLinScale_keeplist.cfg", workers=2, expect_violation="EndpointsMap",
               label="negative self-test: a domain setter that keeps the caller's list aliases two scales (DomainFrom;Nice)")
     maxlen = 4 if quick else 5
